@@ -90,6 +90,7 @@ func runC17(c *run.Ctx) {
 	r := c.Res
 	g := c.R("world")
 	cfg := world.DefaultCfg()
+	cfg.SharedNames = 0.2 // twins: same name, kind and (half of the time) labels in two namespaces, other numbers behind their port names
 	cfg.NamedEgressIP = 0
 	cfg.MaxWorkloads = 5
 	if c.Idx < len(c17Witnesses) {
@@ -110,7 +111,8 @@ func runC17(c *run.Ctx) {
 		w = world.GenNPWorld(g, cfg)
 		world.GenIngressResources(g, w)
 	}
-	if c.Idx%4 == 1 { // workloads whose manifests carry no namespace (they live in "default"), for every kind
+	world.AddTwinNamedPortPolicy(g, w) // only acts on worlds that hold true twins
+	if c.Idx%4 == 1 {                  // workloads whose manifests carry no namespace (they live in "default"), for every kind
 		world.AddDefaultNamespaceWorkloads(g, w, cfg)
 		r.Ev("worlds_with_namespace_omitted", 1)
 	}
